@@ -221,6 +221,11 @@ def oracle(c, im):
     both = bool(c["variables"] if not isinstance(c["variables"], dict) else c["variables"]["tuple"]) and \
            bool(c["exclude"] if not isinstance(c["exclude"], dict) else c["exclude"]["tuple"])
     comma_str = any(isinstance(a, str) and "," in a for a in (c["variables"], c["exclude"])) and not c.get("script")
+    if im["raised"] is not None and not im["dump_ok"] and f is not None and f["state"] == "truncated":
+        bad.append(("exception_object_unpicklable",
+                    "saveframe raised %s while dumping: the exception object cannot be pickled; nothing is saved and the file is left truncated%s"
+                    % (im["raised"], " (a pre-existing file lost its content)" if c.get("pre") is not None else "")))
+        return bad
     if im["raised"] is not None:
         # a refusal is acceptable where the interface documents one; the selection itself must not fail otherwise
         if ast is not None and not both and not comma_str and im["dump_ok"]:
@@ -393,9 +398,33 @@ def oracle_reader(c, im):
 # ---------------------------------------------------------------------------------------------
 # known findings (classifiers)
 
-def cls_exception_object_unpicklable(c, im):
-    """the exception object itself cannot be pickled: the whole dump fails after the file was truncated"""
-    return not im.get("dump_ok", True)
+REGEX_META = set("+*?()[]{}|^$\\")
+
+
+def cls_exception_object_unpicklable(c, im, clause):
+    """C17-N1: the exception object itself cannot be pickled: the whole dump fails after the file was truncated"""
+    return clause == "exception_object_unpicklable" and not im.get("dump_ok", True)
+
+
+def cls_debugger_path_regex(c, im, clause):
+    """C17-N2: in a debugger the default selector is built from the current frame's file name, which is then
+    used as a regular expression: a path with regex metacharacters does not match itself (or is an invalid regex)"""
+    ast = c["sel"]["ast"]
+    if not (ast and ast["kind"] == "debugger" and clause == "selection_spec" and im.get("cur") is not None):
+        return False
+    return bool(REGEX_META & set(im["frames"][str(im["cur"])]["file"]))
+
+
+CLASSIFIERS = {"cls_exception_object_unpicklable": cls_exception_object_unpicklable,
+               "cls_debugger_path_regex": cls_debugger_path_regex}
+
+
+def classify(ctx, c, im, clause):
+    for e in ctx.open_findings():
+        f = CLASSIFIERS.get(e.get("classifier"))
+        if f and f(c, im, clause):
+            return e
+    return None
 
 
 # ---------------------------------------------------------------------------------------------
@@ -419,8 +448,6 @@ def env_checks(ctx, cases, impl):
 
 def check_cases(ctx, cases, impl, model):
     for c, im, mv in zip(cases, impl, model):
-        brief = {k: c[k] for k in ("i", "stream", "sel", "variables", "exclude", "umask", "pre", "script") if k in c}
-        brief["gen"] = {"seed": ctx.seed, "i": c["i"]} if "prog" in c and c.get("from_gen") else None
         full = c
         if "__exc__" in im or "__timeout__" in im:
             ctx.count(c, False)
@@ -430,19 +457,14 @@ def check_cases(ctx, cases, impl, model):
         mvv = model_view(mv)
         if iv != mvv:
             ctx.disagreement("saveframe + SaveframeReader", full, iv, mvv)
-        known = None
-        if cls_exception_object_unpicklable(c, im):
-            known = "N1"
         bad = oracle(c, im)
         for clause, detail in bad[:3]:
-            if known:
-                ctx.known_hit(known, detail)
+            e = classify(ctx, c, im, clause)
+            if e:
+                ctx.known_hit(e["id"], e["what"])
+                ctx.bump("known:" + e["id"])
             else:
                 ctx.violation(clause, full, detail)
-        if known and not bad and im["raised"] is not None:
-            for e in ctx.open_findings():
-                if e["id"] == known:
-                    ctx.known_hit(known, e["what"])
         # distribution
         ctx.bump("stream:" + c["stream"])
         ctx.bump("result:" + str(iv.get("result")) + ("/" + iv["outcome"] if "outcome" in iv else ""))
